@@ -239,6 +239,78 @@ def wit(m, pa, job, cs, msgs, final, ypay, events=None, yfr=None):
 
 
 @guarded
+def _wrap_worker(n0):
+    """(W) counter wrap-around: a message that lost a frame (only its first frame arrives, counter c), then eight intact messages
+    with the counters c+1 ... c+8 (mod 8) as a sender produces them - the last one carries c again.  Every intact message is
+    delivered at its last frame with its own bytes; nothing of the abandoned message survives (seeded C03-i)."""
+    from . import explorer
+    explorer.STATS.__init__()
+    R = _G["R"]
+    pgnX = _G["pgns"][0]
+    rep = Report(PID, _G["tier"], 0, "model_checking")
+    c0 = z3.BitVec("c0", 3)
+    msgs = [make_frames("w%d" % i, n0 if i == 0 else 13, SymInt(z3.ZeroExt(1, c0 + i), 3)) for i in range(9)]
+    trans = [0]
+
+    def h():
+        dec = R.decoder.NMEA2000Decoder()
+        calls = []
+        dec._call_decode_function = lambda pgn_, pr_, s_, d_, ts_, data, iso, raw: calls.append((s_, data)) or ("MSG", len(calls))
+        events = [("x", 0, 0, dec._decode(pgnX, 3, 7, 255, TS, msgs[0][1][0], b""), 0, None, None, None)]
+        for i in range(1, 9):
+            for j, fr in enumerate(msgs[i][1]):
+                events.append(("x", i, j, dec._decode(pgnX, 3, 7, 255, TS, fr, b""), len(calls), None, None, None))
+                trans[0] += 1
+        return events, calls
+    try:
+        paths, ex = explore(h, max_paths=4096)
+    except Unsupported as e:
+        rep.inconc("W: %s" % e)
+        return dict(violations=[], inconclusive=rep.inconclusive, errors=[], samples=[], stats=explorer.STATS, states=0, trans=0)
+    job = ("wrap", n0)
+    for pa in paths:
+        st0, m0 = satisfiable(pa.cond())
+        if st0 != "sat":
+            continue
+        if pa.kind != "return":
+            rep.violation({"kind": "wrap-raises"}, "decoder raised %r" % (pa.value,), wit(m0, pa, job, [c0], msgs, msgs[0], None))
+            continue
+        events, calls = pa.value
+        problem = None
+        claims = []
+        for (kind, i, j, r, ncalls, _a, _b, _c) in events:
+            last = i >= 1 and j == len(msgs[i][1]) - 1
+            if not last:
+                if r is not None:
+                    problem = "frame %d of message %d produced a delivery" % (j, i)
+                    break
+                continue
+            if r is None or r[0] != "MSG":
+                problem = "message %d (counter c+%d) complete at this frame but nothing returned" % (i, i)
+                break
+            got = calls[r[1] - 1][1]
+            pay = msgs[i][0]
+            if len(got) != len(pay):
+                problem = "message %d delivered with %d bytes, announced %d" % (i, len(got), len(pay))
+                break
+            for q in range(len(pay)):
+                claims.append(truth(SymInt.lift(got[len(pay) - 1 - q]) == pay[q]))
+        if problem is None and len(calls) != 8:
+            problem = "%d deliveries, expected 8" % len(calls)
+        if problem is not None:
+            rep.violation({"kind": "wrap-delivery", "what": problem.split(" ")[0]}, "after an abandoned message and a full turn of the sequence counter: " + problem,
+                          wit(m0, pa, job, [c0], msgs, msgs[0], None, events))
+            continue
+        st, m = prove(z3.And(*claims), list(pa.pc), label="W-content")
+        if st == "sat":
+            rep.violation({"kind": "wrap-content"}, "after an abandoned message and a full turn of the sequence counter a delivered payload is not the one sent (bytes of the abandoned message)",
+                          wit(m, pa, job, [c0], msgs, msgs[0], None, events))
+        elif st == "unknown":
+            rep.inconc("W content undecided")
+    return dict(violations=rep.violations, inconclusive=rep.inconclusive, errors=rep.harness_errors, samples=[], stats=explorer.STATS, states=len(paths), trans=trans[0])
+
+
+@guarded
 def _s_worker(_):
     """(S) symbolic stream identities"""
     from . import explorer
@@ -305,6 +377,7 @@ def run(tier, seed):
                               "(with repetition, any order) among its frames" % (sizes, maxp),
                   "stream Y": "13-byte messages from another source interleaved after every X frame, or after every other X frame (odd / even feeds)",
                   "bytes/padding/counters": "symbolic; consecutive counters distinct",
+                  "counter wrap-around (W)": "an abandoned 13- or 20-byte message (first frame only), then 8 intact 13-byte messages with the counters c+1..c+8 mod 8, c symbolic",
                   "stream identities (S)": "symbolic source/destination (8 bits each), 2 PGNs"}
     rep.outside = ["histories longer than the bound", "more than two concurrent streams", "frames older than the previous message of the stream"]
     jobs = [(fc, sizes, maxp) for fc in (0, 1)] + [(fc, (27, 13), maxp) for fc in (0, 1)]
@@ -321,8 +394,8 @@ def run(tier, seed):
         jobs += [(fc, (13, 20), maxp) for fc in (0, 1)] + [(fc, (34, 7), maxp) for fc in (0, 1)] + [(fc, (20, 27), maxp) for fc in (0, 1)]
     ctx = mp.get_context("fork")
     states = trans = 0
-    with ctx.Pool(min(16, len(jobs) + 1)) as pool:
-        rs = [pool.apply_async(_b_worker, (j,)) for j in jobs] + [pool.apply_async(_s_worker, (0,))]
+    with ctx.Pool(min(16, len(jobs) + 3)) as pool:
+        rs = [pool.apply_async(_b_worker, (j,)) for j in jobs] + [pool.apply_async(_s_worker, (0,))] + [pool.apply_async(_wrap_worker, (n0,)) for n0 in (13, 20)]
         for r in rs:
             part = r.get()
             for v in part["violations"]:
